@@ -19,6 +19,18 @@ func ConvertTensorDtype(t tensor.Tensor, newType int32) (tensor.Tensor, error) {
 
 	backing := IfScalarToSlice(t.Data())
 
+	// IfScalarToSlice leaves unsigned scalars as they are.
+	switch data := backing.(type) {
+	case uint8:
+		backing = []uint8{data}
+	case uint16:
+		backing = []uint16{data}
+	case uint32:
+		backing = []uint32{data}
+	case uint64:
+		backing = []uint64{data}
+	}
+
 	switch t.Dtype() {
 	case tensor.Float32:
 		newBacking, err = convertBacking(backing.([]float32), newType)
